@@ -176,6 +176,8 @@ type DFS struct {
 	Budget        time.Duration // wall-clock cap; when hit the result is not exhaustive
 	HangTimeout   time.Duration // a single execution running longer is reported as a hang (default 30s)
 	Confirm       int           // re-executions of a failing case before it is believed (default 4)
+	WorkerProcs   int           // GOMAXPROCS of a worker process (default 2; 1 makes sync.Pool reuse deterministic)
+	GCEvery       int           // >0: automatic GC off in workers, runtime.GC() every N executions (owns GC timing)
 }
 
 type DFSResult struct {
@@ -247,12 +249,19 @@ type explorer struct {
 	nshards  int
 	res      DFSResult
 	deadline time.Time
+	runs     int
 	current  atomic.Value // []int: prefix being executed (for the hang watchdog)
 	started  atomic.Int64
 }
 
 func (e *explorer) run(prefix []int, verbose bool) *X {
 	x := &X{prefix: prefix, maxPoints: e.cfg.MaxPoints, Verbose: verbose}
+	if e.cfg.GCEvery > 0 {
+		e.runs++
+		if e.runs%e.cfg.GCEvery == 0 {
+			runtime.GC()
+		}
+	}
 	e.current.Store(prefix)
 	e.started.Store(time.Now().UnixNano())
 	func() {
@@ -395,6 +404,9 @@ func (d *DFS) defaults() {
 	if d.Confirm == 0 {
 		d.Confirm = 4
 	}
+	if d.WorkerProcs == 0 {
+		d.WorkerProcs = 2
+	}
 }
 
 func (d *DFS) runShard(shard, n int, deadline time.Time) DFSResult {
@@ -411,13 +423,16 @@ func (d *DFS) Run() DFSResult {
 		deadline = time.Now().Add(d.Budget)
 	}
 	if w := os.Getenv("VERIF_WORKER"); w != "" {
-		// worker process: "<name>\x00<i>/<n>"
-		parts := strings.SplitN(w, "\x00", 2)
+		// worker process: "<name>|<i>/<n>"
+		parts := strings.SplitN(w, "|", 2)
 		if parts[0] != d.Name {
 			return newResult(d.Name)
 		}
 		var i, n int
 		fmt.Sscanf(parts[1], "%d/%d", &i, &n)
+		if d.GCEvery > 0 {
+			debug.SetGCPercent(-1)
+		}
 		e := &explorer{cfg: d, shard: i, nshards: n, res: newResult(d.Name), deadline: deadline}
 		out := os.Getenv("VERIF_OUT")
 		go func() { // hang watchdog
@@ -490,7 +505,7 @@ func (d *DFS) runProcs(deadline time.Time) DFSResult {
 			defer wg.Done()
 			out := filepath.Join(dir, fmt.Sprintf("%d.json", i))
 			cmd := exec.Command(os.Args[0], os.Args[1:]...)
-			cmd.Env = append(os.Environ(), fmt.Sprintf("VERIF_WORKER=%s\x00%d/%d", d.Name, i, d.Procs), "VERIF_OUT="+out, "GOMAXPROCS=2")
+			cmd.Env = append(os.Environ(), fmt.Sprintf("VERIF_WORKER=%s|%d/%d", d.Name, i, d.Procs), "VERIF_OUT="+out, fmt.Sprintf("GOMAXPROCS=%d", d.WorkerProcs))
 			var stderr strings.Builder
 			cmd.Stderr = &stderr
 			cmd.Stdout = &stderr
@@ -541,6 +556,9 @@ func sanitize(s string) string {
 // ReplayChoices runs the body once with the recorded choices, verbosely.
 func (d *DFS) ReplayChoices(choices []int) *Violation {
 	d.defaults()
+	if d.Procs > 1 {
+		runtime.GOMAXPROCS(d.WorkerProcs)
+	}
 	e := &explorer{cfg: d, res: newResult(d.Name)}
 	x := e.run(choices, true)
 	if x.inconclusive != "" {
